@@ -51,6 +51,44 @@ def worker(version, args):
                 else:
                     R.traces += 1
             del scn
+        # ---- 1m. the manager clause: what the managers read from a loaded file (the constructors' inputs, traced) is what
+        # they hand back on an unedited save (the values pushed, traced) - link by link, on files written after seeded
+        # histories with attribute-complete effects and conditions. A used effect string comes back with its terminator
+        # (the commit callback re-adds the NUL that parsing drops).
+        if base:
+            from harness import histories, mgrtrace, handback
+            for h in range(args.get("nmgr", 3)):
+                hseed = f"C02:mgr:{args['seed']}:{version}:{h}"
+                with cc.quiet():
+                    scn = AoE2DEScenario.from_file(base)
+                    H = histories.History(scn, random.Random(hseed), version)
+                    if h == 0:
+                        common.outcome(H.populate)      # every effect / condition type, attribute-complete
+                    else:
+                        for _ in range(35):
+                            common.outcome(H.step)
+                    f1 = os.path.join(tmp, f"m{h}.aoe2scenario")
+                    st_w, _ = common.outcome(scn.write_to_file, f1)
+                del scn
+                if st_w != "ok":
+                    continue
+                with cc.quiet():
+                    st_l, lt = common.outcome(mgrtrace.load_traced, f1)
+                    st_s, stx = common.outcome(mgrtrace.save_traced, lt[0], os.path.join(tmp, f"m{h}b.aoe2scenario")) if st_l == "ok" else ("skip", None)
+                if st_l != "ok" or st_s != "ok":
+                    continue                      # a file that does not re-load / re-save is C03's and C04's subject
+                try:
+                    ds = handback.diffs(handback.parse(lt[1]), handback.parse(stx[1]))
+                except ValueError:
+                    continue
+                ds = [d for d in ds if not (d[1].startswith("s") and d[2] == d[1] + "00")]
+                R.case(key=f"handback:{h}", nontrivial=True, tags=("managers-hand-back",))
+                if ds:
+                    R.violation({"version": version, "kind": "manager-value-differs-from-stored", "link": "/".join(ds[0][0].split("/")[:2] + ds[0][0].split("/")[-1:])},
+                                f"a manager hands back {ds[0][2]} for the link at {ds[0][0]} although it read {ds[0][1]} from the loaded file "
+                                f"({len(ds)} link value(s) differ)", {"version": version, "history_seed": hseed, "diffs": ds[:10]})
+                else:
+                    R.traces += 1
         # ---- 1b. strings whose STORED bytes end in more than the one terminating NUL (outside the encoder's normal
         # form, so they cannot come from the generated trees): the base file with such strings written through the
         # section API, decoded by the library (fresh load) and by the model
@@ -205,7 +243,7 @@ def worker(version, args):
 def run(ctx):
     R = common.Result(RULE)
     vs = bases.versions()
-    args = {"seed": ctx.seed, "driver": ctx.driver_path, "ncases": ctx.budget(25, 200), "nmal": ctx.budget(40, 300)}
+    args = {"nmgr": ctx.budget(3, 12), "seed": ctx.seed, "driver": ctx.driver_path, "ncases": ctx.budget(25, 200), "nmal": ctx.budget(40, 300)}
     per = vworker.run_versions("h_c02", "worker", vs, args)
     cc.merge_results(R, per, "C02")
     R.extra["versions"] = vs
